@@ -56,7 +56,14 @@ func FindClass(name string) (c Class) {
 		}
 		name = name[index+1:]
 	}
-	return pkg.FindClass(name)
+	if c = pkg.FindClass(name); c == nil && pkg == CurrentPackage {
+		// The classes of the common-lisp package, the conditions slip itself
+		// signals among them, are found whatever the current package uses.
+		if cl := FindPackage("common-lisp"); cl != nil && cl != pkg {
+			c = cl.FindClass(name)
+		}
+	}
+	return
 }
 
 // RegisterClass a class.
